@@ -409,6 +409,14 @@ func c06Observe(p *prog, o *model.Node, key string) {
 				}
 			}
 			p.expect(ok, "Keys", fmt.Sprintf("%q", want), fmt.Sprintf("%q", got))
+			// the returned list is the caller's: modifying it must not show up in the object or in later Keys() calls
+			drive.Protect(func() {
+				keys.Add("ghost-key")
+				if keys.Count() > 1 {
+					keys.Delete(0)
+				}
+			})
+			p.checkHeap()
 		}
 	case 5: // Values: the multiset of the field values
 		var vals at.List
@@ -437,6 +445,11 @@ func c06Observe(p *prog, o *model.Node, key string) {
 				}
 			}
 			p.expect(okAll, "Values", o.Show(), spec.Trunc(vals.String(), 300))
+			drive.Protect(func() {
+				vals.Add("ghost-value")
+				vals.Reverse()
+			})
+			p.checkHeap()
 		}
 	case 6: // Dict
 		var d map[string]any
@@ -450,6 +463,11 @@ func c06Observe(p *prog, o *model.Node, key string) {
 				}
 			}
 			p.expect(ok, "Dict", o.Show(), fmt.Sprintf("%d entries", len(d)))
+			d["ghost-key"] = 1
+			for k := range d {
+				d[k] = "scribbled"
+			}
+			p.checkHeap()
 		}
 	case 7, 8: // Contains / KeyOf
 		var v model.Val
